@@ -329,9 +329,9 @@ pub struct World {
     pub in_fail: bool,
 }
 
-fn config() -> NodeConfig {
+fn config_net(network: Network) -> NodeConfig {
     NodeConfig {
-        network: Network::Testnet,
+        network,
         key_derivation_style: KeyDerivationStyle::Native,
         use_checkpoints: true,
         allow_deep_reorgs: true,
@@ -361,15 +361,65 @@ pub const DEMOTABLE_TAGS: [&str; 16] = [
     "policy-mutual-destination-allowlisted",
 ];
 
-fn services(persister: Arc<dyn Persist>, clock: Arc<ManualClock>, demoted: &Option<String>) -> NodeServices {
-    let mut policy = make_default_simple_policy(Network::Testnet);
-    if let Some(tag) = demoted {
-        use lightning_signer::policy::filter::{FilterResult, FilterRule, PolicyFilter};
-        policy.filter = PolicyFilter { rules: vec![FilterRule { tag: tag.clone(), is_prefix: false, action: FilterResult::Warn }] };
+/// The policy tags C01/C02/C03 rest on (the assumption "these stay errors" of the theorems; `Props/C0xFn.lean` states for
+/// the generated guards what demoting one of them does).  The deployment `filter *` of the monitor-only group demotes EVERY
+/// other tag — present or future — to a warning: a guard moved onto any other tag shows up as a violation.
+pub const GUARD_TAGS: [&str; 8] = [
+    "policy-revoke-new-commitment-signed",
+    "policy-revoke-new-commitment-valid",
+    "policy-revoke-not-closed",
+    "policy-other",
+    "policy-commitment-previous-revoked",
+    "policy-commitment-holder-not-revoked",
+    "policy-commitment-retry-same",
+    "policy-commitment",
+];
+
+/// A deployment configuration of the monitor-only group, written `<tag>|*[@onchain][@regtest]` (first op `filter …`):
+/// the tag demoted to a warning (`*` = everything except `GUARD_TAGS`), the validator factory (`SimpleValidatorFactory`
+/// or vlsd's default `OnchainValidatorFactory` wrapping it) and the node's network (testnet or regtest).
+pub fn cfg_parts(demoted: &Option<String>) -> (Option<String>, bool, Network) {
+    match demoted {
+        None => (None, false, Network::Testnet),
+        Some(s) => {
+            let mut it = s.split('@');
+            let tag = it.next().unwrap_or("").to_string();
+            let (mut onchain, mut net) = (false, Network::Testnet);
+            for f in it {
+                match f {
+                    "onchain" => onchain = true,
+                    "regtest" => net = Network::Regtest,
+                    _ => {}
+                }
+            }
+            (if tag.is_empty() { None } else { Some(tag) }, onchain, net)
+        }
     }
+}
+
+fn services(persister: Arc<dyn Persist>, clock: Arc<ManualClock>, demoted: &Option<String>) -> NodeServices {
+    let (tag, onchain, net) = cfg_parts(demoted);
+    let mut policy = make_default_simple_policy(net);
+    if let Some(tag) = &tag {
+        use lightning_signer::policy::filter::{FilterResult, FilterRule, PolicyFilter};
+        policy.filter = if tag == "*" {
+            // first match wins: the guard tags stay errors, everything else is a warning
+            let mut rules: Vec<FilterRule> = GUARD_TAGS.iter().map(|t| FilterRule::new_error(*t)).collect();
+            rules.push(FilterRule { tag: String::new(), is_prefix: true, action: FilterResult::Warn });
+            PolicyFilter { rules }
+        } else {
+            PolicyFilter { rules: vec![FilterRule { tag: tag.clone(), is_prefix: false, action: FilterResult::Warn }] }
+        };
+    }
+    let simple = SimpleValidatorFactory::new_with_policy(policy);
+    let validator_factory: Arc<dyn lightning_signer::policy::validator::ValidatorFactory> = if onchain {
+        Arc::new(lightning_signer::policy::onchain_validator::OnchainValidatorFactory::new_with_simple_factory(simple))
+    } else {
+        Arc::new(simple)
+    };
     NodeServices {
-        validator_factory: Arc::new(SimpleValidatorFactory::new_with_policy(policy)),
-        starting_time_factory: make_genesis_starting_time_factory(Network::Testnet),
+        validator_factory,
+        starting_time_factory: make_genesis_starting_time_factory(net),
         persister,
         clock,
         trusted_oracle_pubkeys: vec![],
@@ -447,7 +497,7 @@ impl World {
         // every write goes through a tap that can be told to fail (injected store failure)
         let persister = World::make_persister(&store, &backup_store, &fail, &fail_b);
         let seed = [7u8; 32];
-        let cfg = config();
+        let cfg = config_net(cfg_parts(&demoted).2);
         let clock = Arc::new(ManualClock::new(std::time::Duration::from_secs(1_700_000_000)));
         let node = Arc::new(Node::new(cfg, &seed, vec![], services(persister.clone(), clock.clone(), &demoted)));
         persister.new_node(&node.get_id(), &cfg, &*node.get_state()).unwrap();
@@ -605,7 +655,7 @@ impl World {
     // ---- monitors -------------------------------------------------------------------------
     fn violation(&mut self, kind: &str, desc: String) {
         // the one monitor that rests on a demotable tag
-        if kind == "c03-resign-changed" && self.demoted.as_deref() == Some("policy-commitment-retry-same") {
+        if kind == "c03-resign-changed" && cfg_parts(&self.demoted).0.as_deref() == Some("policy-commitment-retry-same") {
             self.tags.insert("disarmed:c03-resign-changed".into());
             return;
         }
